@@ -38,7 +38,7 @@ ASSUMPTIONS = ['Python\'s own codecs are the ground truth for "decode with encod
                'bytes that neither the given encoding nor UTF-8 decodes; transcoding bytes the incoming codec '
                'rejects; the untouched-shortcut for alias spellings (utf8 vs utf-8: untouched or transcoded both '
                'accepted); empty bytes transcoded to a BOM-emitting codec (b\'\' or the bare BOM both accepted)']
-INTERPRETER_FLAGS = [[], ['-O'], [], ['-bb']]
+INTERPRETER_FLAGS = [[], ['-O'], ['-X', 'dev'], ['-bb']]
 SHARDS = {'quick': 4, 'thorough': 16}
 
 CANON = ['utf-8', 'utf-16', 'utf-32', 'latin-1', 'ascii', 'cp1252', 'shift_jis', 'euc_jp',
